@@ -359,6 +359,6 @@ META = {
         {"name": "tlaps", "path": "/verif/spec/tlaps", "serves_properties": ["C04"], "kind_free_text": "TLA+ proof system (tlapm, SMT back end): the rounding lemmas behind the layout rule for all integers"},
         {"name": "harness", "path": "/verif/harness", "serves_properties": sorted(PLANS), "kind_free_text": "Rust replayer built against /repo's working tree: replays TLC's cases into the real API inside guard-paged memory and judges each property's projection"},
     ],
-    "notes": "Model-based verification with an explicit TLA+ specification (DESIGN.md). ./check <ID> quick|thorough; exit 2 = tool error. Known findings: KNOWN_FINDINGS.txt.",
+    "notes": "Model-based verification with an explicit TLA+ specification (DESIGN.md, section 0 = as built). ./check <ID> quick|thorough|--replay <file>; exit 0 held, 1 VIOLATION, 2 tool error. TLC on spec/*.tla + replay of its cases into the real API (harness/) + TLC validation of traces recorded from the real code (spec/Trace*.tla, judged per property via PROP); Apalache (spec/IoWindow.tla) and TLAPS (spec/tlaps/LayoutArith.tla) for two unbounded lemmas. Known findings: KNOWN_FINDINGS.txt. Seeded changes: seeded/ (120), controls: seeded-benign/ (38); tools/seeded.py, tools/benign.py.",
     "not_yet": {},
 }
